@@ -193,6 +193,11 @@ func (b *c07Base) emit(g *G, tag string, r [3][]byte, tags ...string) {
 		}
 	}
 	g.Emit(c07Op(tag, &b.c.D, &b.c.S.Key.PublicKey, p, q, r), tags...)
+	if tag != "none" && g.R.Intn(10) == 0 {
+		// the same fault, and the server keeps talking after the client gave the exchange up (unencrypted
+		// new_session_created and bad_server_salt): still nothing may be stored
+		g.Emit(c07Op(tag+"+after", &b.c.D, &b.c.S.Key.PublicKey, p, q, r), append(append([]string{}, tags...), "aftermath")...)
+	}
 }
 
 // rewrap: reply 2 with the given inner data (correct SHA-1, correct keys).
@@ -555,7 +560,10 @@ func c07Exec(op []string) string {
 	if !ok {
 		return "bad-op"
 	}
+	// a tag ending in "+after": the server keeps talking after the client abandoned the exchange
+	hsAftermath = strings.HasSuffix(op[1], "+after")
 	run := hsExchange(&c.D, &c.Pub, nil, c.R, false)
+	hsAftermath = false
 	c07Last = run
 	return hsResultLine(run)
 }
